@@ -76,7 +76,10 @@ class WOFF2Reader(SFNTReader):
 
         totalUncompressedSize = offset
         compressedData = self.file.read(self.totalCompressedSize)
-        decompressedData = brotli.decompress(compressedData)
+        try:
+            decompressedData = brotli.decompress(compressedData)
+        except brotli.error as e:
+            raise TTLibError("corrupt WOFF2 font: cannot decompress font data") from e
         if len(decompressedData) != totalUncompressedSize:
             raise TTLibError(
                 "unexpected size for decompressed font data: expected %d, found %d"
